@@ -585,6 +585,8 @@ def run_tsv_case(case, workdir):
     ds.filter.manual[:] = mask
     ds.apply_filter()
     req = [f for f in case["features"] if f.lower() in ds.features_scalar]
+    if not req:
+        req = sorted(ds.features_scalar)[:2]
     uniq = sorted(set(f.lower() for f in req))
     names = {f: i for i, f in enumerate(uniq)}
     filtered = bool(case["filtered"])
@@ -748,8 +750,8 @@ def gen_feature_names(src):
     generator of harness/gen.py with the source's seed)"""
     from . import gen
     rng = random.Random(src["seed"])
-    spec = gen.random_dataset_spec(rng, 1, kinds=tuple(src["kinds"]),
-                                   special=False)
+    spec = gen.random_dataset_spec(rng, src["n"], kinds=tuple(src["kinds"]),
+                                   special=src.get("special", False))
     names = sorted(spec["features"])
     if src.get("temp"):
         names += [NONSCALAR_TEMP, SCALAR_TEMP]
